@@ -42,6 +42,10 @@ fn main() -> ExitCode {
             elidetest();
             ExitCode::SUCCESS
         }
+        "lockfail" => {
+            elock::stress_reopen_after_failure();
+            ExitCode::SUCCESS
+        }
         "locktest" => {
             locktest();
             ExitCode::SUCCESS
@@ -63,7 +67,11 @@ fn locktest() {
     c.warm_up = std::env::var("NO_WARM").is_err();
     c.rollback = true;
     let mut fails = 0;
-    for i in 0..300u64 {
+    let iters: u64 = std::env::var("ITERS").ok().and_then(|v| v.parse().ok()).unwrap_or(300);
+    if let Some(cc) = std::env::var("CC").ok().and_then(|v| v.parse().ok()) {
+        c.commit_concurrency = cc;
+    }
+    for i in 0..iters {
         let db = Db::open(c.options(&dir)).unwrap();
         let s = db.begin_session(SessionParams::default());
         let mut k = [0u8; 32];
@@ -102,7 +110,7 @@ fn locktest() {
             }
         }
     }
-    println!("failures: {fails}/300");
+    println!("failures: {fails}/{iters}");
     let _ = std::fs::remove_dir_all(&dir);
 }
 
